@@ -33,12 +33,26 @@ type Scanner struct {
 	name   string
 	reject map[string]bool
 	yields map[string]int
+	walk   bool // fetch the definition of the scanned component (as the built-in scanners do) and read the names registered so far
+	named  int64
 }
 
 func (s *Scanner) Naming() string { return s.name }
 func (s *Scanner) PostProcessDefinitionRegistry(registry container.DefinitionRegistry, component any, name string) error {
+	if s.walk {
+		if m := registry.GetMetaOrRegister(name, component); m.Name() != name {
+			return fmt.Errorf("definition of %s is registered as %s", name, m.Name())
+		}
+	}
 	for i := 0; i < s.yields[name]; i++ {
 		runtime.Gosched()
+	}
+	if s.walk {
+		for _, other := range registry.GetMetas() {
+			if other.Name() != "" {
+				atomic.AddInt64(&s.named, 1)
+			}
+		}
 	}
 	if s.reject[name] {
 		return fmt.Errorf("%s rejects %s", s.name, name)
@@ -78,6 +92,7 @@ func TestRaces(t *testing.T) {
 		maxRej := 0
 		for i := 0; i < ns; i++ {
 			sc := &Scanner{name: fmt.Sprintf("scanner-%d", i), reject: map[string]bool{}, yields: map[string]int{}}
+			sc.walk = rapid.Bool().Draw(t, "walk")
 			nr := rapid.IntRange(0, 3).Draw(t, "nreject")
 			for j := 0; j < nr; j++ {
 				sc.reject[rapid.SampledFrom(names).Draw(t, "reject")] = true
